@@ -13,15 +13,15 @@ import Biogo.Drive.SeqioWire
 namespace Biogo.Drive.C03_seq
 open Biogo.Wire Biogo.Go.Bytes Biogo.Drive.Seqio
 
-def ops : List String := ["fa3", "fq3"]
+def ops : List String := ["fa3", "fq3", "fap3"]
 
 /-- the non-blank lines, trimmed, as both readers see them -/
 def nonblank (bs : Bytes) : List Bytes := ((splitLines bs).map trimSpace).filter (fun l => l.length > 0)
 
 /-- FASTA: data before any header line must be answered by an error on the first call -/
-def fastaMustReject (bs : Bytes) : Option String :=
+def fastaMustReject (bs : Bytes) (idPrefix : Bytes := [62]) : Option String :=
   match nonblank bs with
-  | l :: _ => if hasPrefix l [62] then none else some "E:bad"
+  | l :: _ => if hasPrefix l idPrefix then none else some "E:bad"
   | [] => none
 
 /-- FASTQ: a record `@hdr / letters / +… / quality` (blank lines anywhere in between) whose
@@ -80,6 +80,13 @@ def handle (line : String) : String :=
       match bytesOfHex hex with
       | some bs => verdict bs (fastaMustReject bs) (fastaCalls (Biogo.Fasta.readAll fastaCfg bs)) obs ["fasta"]
       | none => bad "fa3"
+    | ["fap3", idp, sp, hex] =>
+      -- the FASTA reader with user-set IDPrefix / SeqPrefix
+      match bytesOfHex idp, bytesOfHex sp, bytesOfHex hex with
+      | some idp, some sp, some bs =>
+        verdict bs (fastaMustReject bs idp)
+          (fastaCalls (Biogo.Fasta.readAll { idPrefix := idp, seqPrefix := sp } bs)) obs ["fasta", "user-prefixes"]
+      | _, _, _ => bad "fap3"
     | ["fq3", tmpl, hex] =>
       match bytesOfHex hex, (if tmpl == "s" then some Biogo.Fastq.Encoding.none else encOfString tmpl) with
       | some bs, some enc =>
